@@ -5,6 +5,9 @@ ROUTER_TB = COMMON_TB + [
     "modelled, not verified: http::Method / Uri parsing, the Arc<dyn RouteHandler> indirection (the model "
     "identifies a handler with its endpoint's operation id), semver ordering (chain indices; see C05)",
     "the harness's reading of VariableValue through its Debug output",
+    "pipeline slice: the version header is parsed and compared by the Gallina semver model (Semver.v: parse, cmp), "
+    "itself compared with the semver crate on every C05 run; the harness classifies a header value as absent / "
+    "not visible ASCII / string the way http::HeaderValue::to_str does; values hyper itself refuses are not sent",
 ]
 
 CFG = {
